@@ -8,7 +8,7 @@
     10  model set_val (real)     fmt r o raw arr vd              -> codes, flags, read-back values
 *)
 From Coq Require Import ZArith List Bool.
-From FxpVerif Require Import Spec SpecArith NP Store Status Convert Arith Div Conv Bitwise Wire.
+From FxpVerif Require Import Spec SpecArith NP Store Status Convert Arith Div Conv Bitwise Strings Wire.
 Import ListNotations.
 Open Scope Z_scope.
 
@@ -132,5 +132,16 @@ Definition dispatch (req : list Z) : list Z :=
                    eoutcome (ewres fx) (match b with
                                         | 0 => fxp_bitwise BAnd fx cx yf nwy cy r o | 1 => fxp_bitwise BOr fx cx yf nwy cy r o
                                         | 2 => fxp_bitwise BXor fx cx yf nwy cy r o | _ => fxp_invert fx cx r o end)) t
+  (* 70: renderings of (f, c): bin (no dot, no prefix), bin with dot and prefix, hex with prefix, base_repr b
+     71: parsers: strbin2int / strhex2int of a digit string *)
+  | 70 :: t => run (f <- dfmt ;; c <- dZ ;; pb <- dlist dZ ;; ph <- dlist dZ ;; base <- dZ ;; dret (f, c, pb, ph, base))
+                (fun '(f, c, pb, ph, base) =>
+                   elist (fun x => [x]) (bin_model f c false []) ++ elist (fun x => [x]) (bin_model f c true pb)
+                   ++ elist (fun x => [x]) (hex_model f c ph) ++ elist (fun x => [x]) (base_repr_model base c)) t
+  | 71 :: t => run (hexp <- dbool ;; s <- dbool ;; n <- dZ ;; digits <- dlist dZ ;; dret (hexp, s, n, digits))
+                (fun '(hexp, s, n, digits) =>
+                   eoutcome (fun z => [z])
+                     (if (hexp : bool) then strhex2int s n digits
+                      else match bits_of_str digits with Some l => strbin2int s n l | None => Exc ValueError end)) t
   | _ => bad_request
   end.
